@@ -46,16 +46,14 @@ def handle_usage_lemma(reg, repo):
     (text file, BGZFile)"""
     import ast
     import z3
-    from pyvc.engine import load_function, Oblig
+    from pyvc.engine import load_function, Oblig, Unsupported
     outs = []
     for file, func, names in HANDLE_USERS:
         try:
             fn, mod, src = load_function(repo, file, func)
         except Exception as e:  # noqa
-            o = Oblig("%s:%s::usage::anchor" % (file[:-3].replace("/", "."), func), "lemma", [], z3.BoolVal(False))
-            o.inputs = []
-            outs.append(o)
-            continue
+            # the function is gone or renamed: the frame argument cannot be made (undecided, exit 2) - not by itself a violation
+            raise Unsupported("handle-usage lemma: cannot load %s:%s (%s)" % (file, func, e))
         bad = []
         for n in ast.walk(fn):
             if isinstance(n, ast.Attribute) and ast.unparse(n.value) in names:
@@ -63,6 +61,10 @@ def handle_usage_lemma(reg, repo):
                     bad.append("%s.%s (line %d)" % (ast.unparse(n.value), n.attr, n.lineno))
             elif isinstance(n, (ast.Name, ast.Attribute)) and ast.unparse(n) in names:
                 pass
+        if bad:
+            # another method of the handle is used: the abstract reader contract no longer covers the function, so independence of the compression
+            # is undecided here (exit 2) and left to the bounded engine; using e.g. read() is not by itself a violation (DESIGN 13.8)
+            raise Unsupported("handle-usage lemma: %s uses the file handle through %s, outside tell/readline/seek/close/iteration" % (func, "; ".join(bad)))
         # bare uses: allowed as iteration source, assignment target/source of the handle itself, and call receiver
         o = Oblig("%s:%s::usage::handle-used-only-through-tell-readline-seek-close-iteration%s" % (
             file[:-3].replace("/", "."), func, ("[" + "; ".join(bad) + "]") if bad else ""), "lemma", [], z3.BoolVal(not bad))
